@@ -97,7 +97,8 @@ def corpus():
     # a library with every block class and a duplicate entry key
     c.extend(_case([op], _context_lib(["b", "a", "B", "A"]), ip, "corpus")
              for op in ["alpha", "norm", ["custom", ["b", "a"], False]] for ip in (True, False))
-    return c
+    # the same libraries holding instances of a user-defined subclass of Entry
+    return c + [dict(x, sub=True) for x in c]
 
 
 def _context_lib(keys):
@@ -228,7 +229,7 @@ def _all_strings(case):
 def _run(case):
     ip = case.get("ip", True)
     mws = [_mk(op, ip) for op in case["ops"]]      # constructors first
-    lib = W.library(case["lib"])
+    lib = W.library(case["lib"], sub=case.get("sub", False))
     for mw in mws:
         lib = mw.transform(lib)
     return lib
@@ -339,7 +340,7 @@ def oracle(case):
             return None       # rejected as required; nothing else to run
         except Exception as e:  # noqa
             return "constructing %r raised %s" % (op, type(e).__name__)
-    lib = W.library(case["lib"])
+    lib = W.library(case["lib"], sub=case.get("sub", False))
     for op, mw in zip(ops, mws):
         before = [(type(b), W.enc(W.enc_block(b)), [_snap(f) for f in b.fields] if isinstance(b, M.Entry) else None,
                    (b.entry_type, b.key, b.start_line, b.raw) if isinstance(b, M.Entry) else None) for b in lib.blocks]
